@@ -61,7 +61,11 @@ func vbInject(ifi *config.Interface, s *vbSys) {
 		case *plugin.RDNSS:
 			p.Addrs = addrs
 		case *plugin.LLA:
-			p.Addr = s.mac
+			// through the real Prepare: an interface without a hardware address (tun, PPP, WireGuard) has a nil
+			// HardwareAddr and must yield no source link-layer address option
+			if err := p.Prepare(&net.Interface{Index: 1, Name: "verif0", HardwareAddr: s.mac}); err != nil {
+				panic(err)
+			}
 		}
 	}
 }
